@@ -71,7 +71,7 @@ MUTANTS += [
     dict(id="c03-snapshot-kept-after-load", props=["C03", "C02"], desc="bucket snapshot is not removed when loaded",
          edits=[(IDX, "\t\tvhook.Point(\"index.load.remove\")\n\t\tif e = os.Remove(bucketsFileName); e != nil {", "\t\tvhook.Point(\"index.load.remove\")\n\t\tif e = error(nil); e != nil {")]),
     dict(id="c03-buckets-before-write", props=["C03", "C05"], desc="bucket table updated before the log write is flushed",
-         edits=[(IDX, "\tvhook.Point(\"index.flush.write\")\n\terr := idx.writer.Flush()\n", "\tidx.bucketLk.Lock()\n\tfor _, blk := range blks {\n\t\tidx.buckets.Put(blk.bucket, blk.blk.Offset)\n\t}\n\tidx.bucketLk.Unlock()\n\tvhook.Point(\"index.flush.write\")\n\terr := idx.writer.Flush()\n")]),
+         edits=[(IDX, "\tvhook.Point(\"index.flush.write\")\n\terr = idx.writer.Flush()\n", "\tidx.bucketLk.Lock()\n\tfor _, blk := range blks {\n\t\tidx.buckets.Put(blk.bucket, blk.blk.Offset)\n\t}\n\tidx.bucketLk.Unlock()\n\tvhook.Point(\"index.flush.write\")\n\terr = idx.writer.Flush()\n")]),
     dict(id="c03-header-in-place", props=["C03"], desc="headers written in place again",
          edits=[(HD, "\ttmpPath := headerPath + \".tmp\"\n", "\ttmpPath := headerPath\n")]),
     dict(id="c03-gc-deletes-gcfile-first", props=["C03", "C13"], desc="freelist .gc file removed before it is processed",
